@@ -28,6 +28,11 @@ type G struct {
 	// TruncatedPackets: packet headers may declare more bytes than the frame carries (a packet-in holds
 	// the first miss_send_len / max_len bytes of the packet, its IP and UDP length fields those of the whole)
 	TruncatedPackets bool
+	// CutPackets: the data of a packet-in may end anywhere inside the packet, also inside a protocol header or
+	// before the first byte (OFPCML max_len of a controller action / miss_send_len: "send only the first N
+	// bytes", N = 0 included when the switch buffers the packet). Opt-in per check: the value such a frame
+	// decodes to is not expressible as the Ethernet value the generator built.
+	CutPackets int // 0 never, 1 in a sixth of the packet-ins, 2 in every packet-in
 }
 
 // claimMore returns how many bytes more than carried a length field declares (0 most of the time).
